@@ -514,3 +514,31 @@ func (p *Prog) FieldPath(pkg, typ string, names ...string) *types.Var {
 	}
 	return v
 }
+
+// FieldOr resolves struct field pkg.typ.name; when no field has that name
+// (e.g. after a rename) it falls back to the unique field whose type satisfies pred.
+func (p *Prog) FieldOr(pkg, typ, name string, pred func(types.Type) bool) *types.Var {
+	nt := p.Named(pkg, typ)
+	st, ok := nt.Underlying().(*types.Struct)
+	if !ok {
+		Fail("%s.%s is not a struct", pkg, typ)
+	}
+	for i := 0; i < st.NumFields(); i++ {
+		if st.Field(i).Name() == name {
+			return st.Field(i)
+		}
+	}
+	var found *types.Var
+	for i := 0; i < st.NumFields(); i++ {
+		if pred != nil && pred(st.Field(i).Type()) {
+			if found != nil {
+				Fail("field %s.%s.%s not found and its type is not unique", pkg, typ, name)
+			}
+			found = st.Field(i)
+		}
+	}
+	if found == nil {
+		Fail("field %s.%s.%s not found", pkg, typ, name)
+	}
+	return found
+}
